@@ -23,7 +23,8 @@ LEVEL = "exploration"
 RULE = ("Hypothesis draws a built-in form, a parameter vector from its documented domain (ints and floats, "
         "zero and negative values, polynomial orders 0..8) and 4..8 separations in (0,30]; each is evaluated "
         "through up to four routes and compared with an independent closed form (tolerance 256 eps x "
-        "accumulated term magnitudes). Non-trivial = all parameters non-zero and pairwise distinct (so a "
+        "accumulated term magnitudes). One stratum per form re-expresses it in other units (energies x 10^e, lengths x "
+        "10^l: SI and six others) so that parameters of extreme but valid magnitude occur. Non-trivial = all parameters non-zero and pairwise distinct (so a "
         "swapped or dropped parameter changes the value); distinct = distinct canonical JSON.")
 ASSUMPTIONS = [
     "ZBL and Tang-Toennies references use the constants the module itself declares as its closed form "
